@@ -221,6 +221,16 @@ func (u *universe) sel() *selector.Selector {
 func (d *drv) randomInherit(t int, rnd *rand.Rand) {
 	u := newUniverse(rnd)
 	d.startInherit(t, u.keys, u.vals)
+	if len(u.parents) >= 2 && rnd.Intn(2) == 0 {
+		// two parents that disagree on a label the item does not carry itself, listed in both orders
+		k, v0, v1 := u.keys[0], u.vals[0], u.vals[1]
+		d.updateParent(u.parents[0], map[string]string{k: v0})
+		d.updateParent(u.parents[1], map[string]string{k: v1})
+		d.updateSel(u.selIDs[0], parseAST(&selgen.N{Op: "eq", K: k, V: v0}))
+		d.updateLabels(u.items[0], map[string]string{}, []string{u.parents[0], u.parents[1]})
+		d.updateLabels(u.items[0], map[string]string{}, []string{u.parents[1], u.parents[0]})
+		d.updateLabels(u.items[0], map[string]string{k: v0}, []string{u.parents[1], u.parents[0]})
+	}
 	steps := 20 + rnd.Intn(40)
 	var lastLabels map[string]string
 	var lastParents []string
